@@ -200,6 +200,8 @@ package common
 //@     && dom(t.AllowedProtocols) == old(dom(t.AllowedProtocols))
 //@     && (forall q v1.Protocol :: {q in t.AllowedProtocols} {t.AllowedProtocols[q]} q in t.AllowedProtocols ==>
 //@             (t.AllowedProtocols[q] == old(t.AllowedProtocols[q]) && samePS(t.AllowedProtocols[q])))
+//@     && (forall q v1.Protocol, n int :: {iset(t.AllowedProtocols[q].Ports)[n]} {old(iset(t.AllowedProtocols[q].Ports)[n])}
+//@             ptsP(t, q, n) == old(ptsP(t, q, n)))
 // frame, stated as a postcondition: a well-formed set that shares nothing with the updated one is untouched
 //@ pred othersKept(conn *ConnectionSet) = (forall t *ConnectionSet :: {t.AllowedProtocols} {old(wfCS(t))} {old(sep1CS(conn, t))}
 //@     (old(wfCS(t)) && old(sepCS(conn, t))) ==> (sameCS(t) && wfCS(t) && sepCS(conn, t)))
